@@ -72,6 +72,9 @@ type scSpell struct {
 	Syn  string `json:"syn"`
 	Ref  string `json:"ref"`
 	Decl string `json:"decl"`
+	Emb  string `json:"emb"`  // Embeddings of Scope.tla: the expression around the reference "@" ("" = toJSON(@))
+	IdSh string `json:"idsh"` // IdShapes: text of a step id given by an expression ("" = one whole ${{ }})
+	Lay  int    `json:"lay"`  // layout of the header: bit 0 sections before `on:`, bit 1 workflow_dispatch before workflow_call
 }
 type scVec struct {
 	ID   int     `json:"id"`
@@ -113,9 +116,6 @@ func scRefText(r scRef, sp scSpell) string {
 	}
 	return sb.String()
 }
-
-const scOpen = "${{ toJSON("
-const scOpenAny = "${{ fromJSON(toJSON("
 
 // scRendered is the text of a workflow with what the callers need to know about it.
 type scRendered struct {
@@ -160,72 +160,106 @@ func scRender(sh scShape, site scSite, ref scRef, keep map[int]bool, order []int
 	line := 0
 	out := scRendered{jobStart: map[int]int{}, jobEnd: map[int]int{}}
 	w := func(s string) { sb.WriteString(s + "\n"); line++ }
-	probe := scOpen + scRefText(ref, sp) + ") }}"
-	at := func(prefix string) { // writes prefix + probe and records the position
-		w(prefix + probe)
-		out.refLine = line
-		out.refCol = len(prefix) + len(scOpen) + 1
+	frame := sp.Emb
+	if frame == "" {
+		frame = "toJSON(@)"
 	}
-	atAny := func(prefix string) { // for bool / number positions: the probe has type any
-		w(prefix + scOpenAny + scRefText(ref, sp) + ")) }}")
+	hole := strings.Index(frame, "@")
+	body := frame[:hole] + scRefText(ref, sp) + frame[hole+1:]
+	atWith := func(prefix, open, close string) { // writes prefix + probe and records the position of the reference
+		w(prefix + open + body + close)
 		out.refLine = line
-		out.refCol = len(prefix) + len(scOpenAny) + 1
+		out.refCol = len(prefix) + len(open) + hole + 1
 	}
+	at := func(prefix string) { atWith(prefix, "${{ ", " }}") }
+	// for bool / number positions: the probe has type any
+	atAny := func(prefix string) { atWith(prefix, "${{ fromJSON(toJSON(", ")) }}") }
 	is := func(k string, j, s int) bool { return site.K == k && site.J == j && site.S == s }
 
-	w("on:")
-	w("  push:")
-	if sh.Call.K == "some" {
-		w("  workflow_call:")
-		if len(sh.Call.Ins) > 0 {
-			w("    inputs:")
-			for _, n := range sh.Call.Ins {
-				w("      " + dn(n) + ":")
-				w("        type: string")
-			}
-		}
-		if sh.Call.Sec.K == "some" {
-			if len(sh.Call.Sec.Ns) == 0 {
-				w("    secrets: {}")
-			} else {
-				w("    secrets:")
-				for _, n := range sh.Call.Sec.Ns {
-					w("      " + dn(n) + ":")
-					w("        required: false")
+	events := func() {
+		w("on:")
+		w("  push:")
+		call := func() {
+			if sh.Call.K == "some" {
+				w("  workflow_call:")
+				if len(sh.Call.Ins) > 0 {
+					w("    inputs:")
+					for _, n := range sh.Call.Ins {
+						w("      " + dn(n) + ":")
+						w("        type: string")
+					}
+				}
+				if sh.Call.Sec.K == "some" {
+					if len(sh.Call.Sec.Ns) == 0 {
+						w("    secrets: {}")
+					} else {
+						w("    secrets:")
+						for _, n := range sh.Call.Sec.Ns {
+							w("      " + dn(n) + ":")
+							w("        required: false")
+						}
+					}
+				}
+				if sh.Call.Outs {
+					w("    outputs:")
+					w("      x:")
+					if is("callout", 0, 0) {
+						at("        value: ")
+					} else {
+						w("        value: fixed")
+					}
 				}
 			}
 		}
-		if sh.Call.Outs {
-			w("    outputs:")
-			w("      x:")
-			if is("callout", 0, 0) {
-				at("        value: ")
-			} else {
-				w("        value: fixed")
+		disp := func() {
+			if sh.Disp.K == "some" {
+				w("  workflow_dispatch:")
+				if len(sh.Disp.Ins) > 0 {
+					w("    inputs:")
+					for _, n := range sh.Disp.Ins {
+						w("      " + dn(n) + ":")
+						w("        type: string")
+					}
+				}
 			}
 		}
-	}
-	if sh.Disp.K == "some" {
-		w("  workflow_dispatch:")
-		if len(sh.Disp.Ins) > 0 {
-			w("    inputs:")
-			for _, n := range sh.Disp.Ins {
-				w("      " + dn(n) + ":")
-				w("        type: string")
-			}
+		if sp.Lay&2 != 0 {
+			disp()
+			call()
+		} else {
+			call()
+			disp()
 		}
 	}
-	if is("runname", 0, 0) {
-		at("run-name: ")
+	sections := func() {
+		if is("runname", 0, 0) {
+			at("run-name: ")
+		}
+		if is("wfenv", 0, 0) {
+			w("env:")
+			at("  PROBE: ")
+		}
+		if sh.WShell != "" {
+			w("defaults:")
+			w("  run:")
+			w("    shell: " + sh.WShell)
+		}
+		if is("wfconcgroup", 0, 0) {
+			w("concurrency:")
+			at("  group: ")
+		}
+		if is("wfconccancel", 0, 0) {
+			w("concurrency:")
+			w("  group: fixed")
+			atAny("  cancel-in-progress: ")
+		}
 	}
-	if is("wfenv", 0, 0) {
-		w("env:")
-		at("  PROBE: ")
-	}
-	if sh.WShell != "" {
-		w("defaults:")
-		w("  run:")
-		w("    shell: " + sh.WShell)
+	if sp.Lay&1 != 0 {
+		sections()
+		events()
+	} else {
+		events()
+		sections()
 	}
 	w("jobs:")
 	if order == nil {
@@ -332,7 +366,7 @@ func scRender(sh scShape, site scSite, ref scRef, keep map[int]bool, order []int
 			continue
 		}
 		if is("runson", j, 0) {
-			at("    runs-on: ")
+			atAny("    runs-on: ")
 		}
 		switch job.Runs {
 		case "w":
@@ -410,7 +444,11 @@ func scRender(sh scShape, site scSite, ref scRef, keep map[int]bool, order []int
 			switch st {
 			case "-":
 			case "$":
-				item("id: ${{ format('dyn{0}', 1) }}", false)
+				if sp.IdSh != "" {
+					item("id: "+sp.IdSh, false)
+				} else {
+					item("id: ${{ format('dyn{0}', 1) }}", false)
+				}
 			default:
 				item("id: "+dn(st), false)
 			}
